@@ -17,6 +17,10 @@ OPT_PY = 'pytype/pytd/optimize.py'
 
 
 def build():
+  return [build_join(), build_combine()]
+
+
+def build_join():
   T = Theory('C11')
   T.append_frame_trigger = True
   Ty = S.Uninterp('Type')
@@ -178,9 +182,126 @@ def lemma(types):
   return T
 
 
+def build_combine():
+  """Second theory: optimize.CombineReturnsAndExceptions (_ReturnsAndExceptions.Update, _GroupByArguments, VisitFunction):
+  signatures that differ only in return type / exceptions are merged, the return types joined with JoinTypes (contract proved
+  in the first theory), the exceptions collected."""
+  T = build_join()
+  for c in list(T.contracts.values()):
+    if c.qualname != 'JoinTypes':
+      del T.contracts[c.key]
+    else:
+      c.verify = False
+      c.note = 'proved in the first theory'
+  T.lemmas = []
+  Ty = T.sorts['Type']
+  SeqT = S.Seq(Ty)
+  Sig = S.Uninterp('Signature')
+  Fun = S.Uninterp('Function')
+  SeqS = S.Seq(Sig)
+  RE = S.Uninterp('ReturnsAndExceptionsRef')
+  T.sorts.update(Signature=Sig, Function=Fun)
+  T.sorts['OptType'] = S.Opt(Ty)
+  ZS, ZT = Sig.z3(), Ty.z3()
+  stripf = z3.Function('stripped', ZS, ZS)
+  retf = z3.Function('return_type', ZS, ZT)
+  excf = z3.Function('exceptions', ZS, SeqT.z3())
+  mk = z3.Function('with_returns_and_exceptions', ZS, ZT, SeqT.z3(), ZS)
+  sigs_of = z3.Function('signatures', Fun.z3(), SeqS.z3())
+  mkfun = z3.Function('with_signatures', Fun.z3(), SeqS.z3(), Fun.z3())
+  s_, r_ = z3.Const('s_', ZS), z3.Const('r_', ZT)
+  e_ = z3.Const('e_', SeqT.z3())
+  f_ = z3.Const('f_', Fun.z3())
+  q_ = z3.Const('q_', SeqS.z3())
+  OptT = S.Opt(Ty)
+  T.axioms += [
+      # sig.Replace(return_type=None, exceptions=None) forgets exactly these two fields; Replace(return_type=r, exceptions=e) sets them
+      z3.ForAll([s_], stripf(stripf(s_)) == stripf(s_), patterns=[stripf(s_)]),
+      z3.ForAll([s_, r_, e_], z3.And(stripf(mk(s_, r_, e_)) == stripf(s_), retf(mk(s_, r_, e_)) == r_,
+                                      SeqT.eq(excf(mk(s_, r_, e_)), e_)), patterns=[mk(s_, r_, e_)]),
+      z3.ForAll([f_, q_], SeqS.eq(sigs_of(mkfun(f_, q_)), q_), patterns=[mkfun(f_, q_)]),
+      z3.ForAll([s_], SeqT.len(excf(s_)) >= 0, patterns=[excf(s_)]),
+      z3.ForAll([f_], SeqS.len(sigs_of(f_)) >= 0, patterns=[sigs_of(f_)]),
+  ]
+
+  def sig_replace(ex, recv, a, k):
+    if set(k) != {'return_type', 'exceptions'}:
+      raise NotImplementedError('Signature.Replace(%s)' % sorted(k))
+    from engine.values import NONE as _NONE
+    if k['return_type'] is _NONE and k['exceptions'] is _NONE:
+      return V(Sig, stripf(recv.t))
+    return V(Sig, mk(recv.t, ex.coerce(k['return_type'], Ty).t, ex.coerce(k['exceptions'], SeqT).t))
+  T.method_models[(Sig.name, 'Replace')] = sig_replace
+  T.attr_models[(Sig.name, 'return_type')] = lambda ex, v: V(Ty, retf(v.t))   # a signature under optimisation has a return type (None only in the stripped key)
+  T.attr_models[(Sig.name, 'exceptions')] = lambda ex, v: V(SeqT, excf(v.t), origin=('immutable', 'Signature', 'exceptions'))
+  T.attr_models[(Fun.name, 'signatures')] = lambda ex, v: V(SeqS, sigs_of(v.t), origin=('immutable', 'Function', 'signatures'))
+  T.method_models[(Fun.name, 'Replace')] = lambda ex, recv, a, k: V(Fun, mkfun(recv.t, ex.coerce(k['signatures'], SeqS).t))
+  T.bind_heap(OPT_PY, '_ReturnsAndExceptions', RE, collections.OrderedDict(return_types=SeqT, exceptions=SeqT))
+  T.bind_obj(OPT_PY, 'CombineReturnsAndExceptions', collections.OrderedDict())
+  B = lambda nm, f: Builtin(nm, f, needs_ex=True)
+  T.symbols['stripped'] = B('stripped', lambda ex, a_, k_, n_: V(Sig, stripf(ex.coerce(a_[0], Sig).t)))
+  raises = z3.Function('raises', ZS, ZT, z3.BoolSort())
+  t_ = z3.Const('t_', ZT)
+  T.axioms.append(z3.ForAll([s_, t_], raises(s_, t_) == SeqT.contains(excf(s_), t_), patterns=[raises(s_, t_)]))
+  T.symbols['raises'] = B('raises', lambda ex, a_, k_, n_: V(S.BOOL, raises(ex.coerce(a_[0], Sig).t, ex.coerce(a_[1], Ty).t)))
+  T.assumptions += [
+      'second theory (CombineReturnsAndExceptions): signatures and functions are opaque values; sig.Replace(return_type=None, exceptions=None) is the '
+      'signature without these two fields (idempotent), Replace(return_type=r, exceptions=e) sets exactly them; f.Replace(signatures=q) sets the signatures (A-CTOR, msgspec)',
+      '_ReturnsAndExceptions objects live in a heap (they are reached through the groups dict and mutated through aliases)',
+      'list.extend(generator that tests membership in the list being extended) is specified by membership only (which duplicates inside one signature survive is not stated)',
+  ]
+  me = RE
+  T.add(Contract(
+      OPT_PY, '_ReturnsAndExceptions.Update', collections.OrderedDict(self=me, signature=Sig),
+      ensures=[
+          'all((t in self.return_types) == (t in old(self.return_types) or t == signature.return_type) for t in every("Type"))',
+          'all((t in self.exceptions) == (t in old(self.exceptions) or raises(signature, t)) for t in every("Type"))',
+      ],
+      heap_mutates=(('self', 'return_types'), ('self', 'exceptions'))))
+  in_group = lambda res, k: 'any(stripped(signatures[j]) == %s and %s for j in range(%s))' % (k, '%s', '%s')
+  T.add(Contract(
+      OPT_PY, 'CombineReturnsAndExceptions._GroupByArguments', collections.OrderedDict(self=('obj', 'CombineReturnsAndExceptions'), signatures=SeqS),
+      ensures=[
+          # the keys are the stripped input signatures
+          'all((k in result) == any(stripped(signatures[j]) == k for j in range(len(signatures))) for k in every("Signature"))',
+          # each group holds exactly the return types of the signatures with that parameter list (the exceptions are collected by
+          # Update -- proved above -- but which group ends up with which exceptions is not under contract: C11 is about types)
+          'all(implies(k in result, all((t in result[k].return_types) == any(stripped(signatures[j]) == k and signatures[j].return_type == t'
+          ' for j in range(len(signatures))) for t in every("Type"))) for k in every("Signature"))',
+      ],
+      loops={0: Loop([
+          'all((k in groups) == any(stripped(signatures[j]) == k for j in range(i)) for k in every("Signature"))',
+          'all(implies(k in groups, all((t in groups[k].return_types) == any(stripped(signatures[j]) == k and signatures[j].return_type == t'
+          ' for j in range(i)) for t in every("Type"))) for k in every("Signature"))',
+          # distinct keys hold distinct, already created objects
+          'all(implies(k in groups, allocated(groups[k])) for k in every("Signature"))',
+          'all(all(implies(k1 in groups and k2 in groups and k1 != k2, groups[k1] != groups[k2]) for k2 in every("Signature")) for k1 in every("Signature"))',
+      ], index='i', havoc=['$H._ReturnsAndExceptions.return_types', '$H._ReturnsAndExceptions.exceptions', '$H._ReturnsAndExceptions.$alloc'])},
+      result=S.DictOf(Sig, RE), ghost={'groups': S.DictOf(Sig, RE), 'ret': S.Opt(RE), 'stripped_signature': Sig}))
+  T.add(Contract(
+      OPT_PY, 'CombineReturnsAndExceptions.VisitFunction', collections.OrderedDict(self=('obj', 'CombineReturnsAndExceptions'), f=Fun),
+      ensures=[
+          # only widens: every signature of f has a counterpart with the same parameters whose return type admits what its return type admits
+          'all(any(stripped(result.signatures[m]) == stripped(f.signatures[j]) and implies(den(f.signatures[j].return_type), den(result.signatures[m].return_type))'
+          ' for m in range(len(result.signatures))) for j in range(len(f.signatures)))',
+          # never wider than the signatures with the same parameters taken together
+          'all(implies(den(result.signatures[m].return_type), any(stripped(f.signatures[j]) == stripped(result.signatures[m]) and den(f.signatures[j].return_type)'
+          ' for j in range(len(f.signatures)))) for m in range(len(result.signatures)))',
+      ],
+      loops={0: Loop([
+          'all(implies(k in groups and any(GK_[q][0] == k for q in range(i)), any(stripped(new_signatures[m]) == k and '
+          'all(implies(t in groups[k].return_types and den(t), den(new_signatures[m].return_type)) for t in every("Type")) for m in range(len(new_signatures))))'
+          ' for k in every("Signature"))',
+          'all(any(GK_[q][0] == stripped(new_signatures[m]) for q in range(i)) and implies(den(new_signatures[m].return_type), '
+          'any(t in groups[stripped(new_signatures[m])].return_types and den(t) for t in every("Type"))) for m in range(len(new_signatures)))',
+      ], index='i', seq='GK_')},
+      result=Fun, ghost={'groups': S.DictOf(Sig, RE), 'new_signatures': SeqS}))
+  return T
+
+
 SURROUND = ['optimize.CombineContainers (tuple/callable arity merging, container merging): bounded native sweep only',
             'optimize.SimplifyUnionsWithSuperclasses / FindCommonSuperClasses / CollapseLongUnions / SuperClassHierarchy: bounded native sweep only',
-            'optimize.CombineReturnsAndExceptions, RemoveDuplicates, AbsorbMutableParameters, MergeTypeParameters: bounded native sweep only',
+            'optimize.RemoveDuplicates, AbsorbMutableParameters, MergeTypeParameters: bounded native sweep only; which exceptions a merged signature carries (CombineReturnsAndExceptions) is not under contract',
             'the visitor framework (visitors.py / pytd_visitors.py), Optimize\'s pass pipeline and its idempotence as a whole',
             'pytd._FlattenTypes / _SetOfTypes.__post_init__ (assumed constructor semantics A-CTOR)']
 def extra_obligations(repo):
@@ -221,6 +342,10 @@ def extra_obligations(repo):
 
 NATIVE_IN_QUICK = True
 MUTANTS = [
+    dict(name='cre_join_first_only', file=OPT_PY, old="      ret = pytd_utils.JoinTypes(ret_exc.return_types)\n", new="      ret = pytd_utils.JoinTypes(ret_exc.return_types[:1])\n"),
+    dict(name='cre_update_inverted', file=OPT_PY, old="    if signature.return_type not in self.return_types:\n", new="    if signature.return_type in self.return_types:\n"),
+    dict(name='cre_group_reused_object', file=OPT_PY, old="      if not ret:\n        ret = _ReturnsAndExceptions()\n        groups[stripped_signature] = ret\n", new="      if not ret:\n        ret = shared\n        groups[stripped_signature] = ret\n"),
+
     dict(name='join_keeps_nothing', file=UTILS_PY, old="    elif isinstance(t, pytd.NothingType):\n      pass\n", new=""),
     dict(name='join_keeps_duplicates', file=UTILS_PY, old="    elif t not in seen:\n", new="    else:\n"),
     dict(name='join_narrows_to_first', file=UTILS_PY, old="  elif new_types:\n    return pytd.UnionType(tuple(new_types))", new="  elif new_types:\n    return new_types[0]"),
